@@ -55,14 +55,14 @@ PROPS = {
                         "validator store keys are unique and holdings are canonical sdk.Coins (WF; properties of the KV store and of sdk.Coins), slash fractions < 1 (Params.Validate)"],
     },
     "C12": {
-        "module": ["GoatProofs.C12", "GoatProofs.C12H"],
+        "module": ["GoatProofs.C12", "GoatProofs.C12H", "GoatProofs.C12G"],
         "theorems": ["Goat.C12.shares_sum_le_pool", "Goat.C12.share_at_most_proportional", "Goat.C12.repeated_halving_eq",
                      "Goat.C12.scheduled_eq", "Goat.C12.emission", "Goat.C12.income", "Goat.C12.updateRewardPool_conserves",
                      "Goat.C12.F5_rounded_shares_exceed_pool",
                      "Goat.C12H.updateRewardPool_exact", "Goat.C12H.emitted_eq_min", "Goat.C12H.distributeReward_spec", "Goat.C12H.distributeReward_no_votes",
                      "Goat.C12H.dist_bounds", "Goat.C12H.distributeReward_validator", "Goat.C12H.distributeReward_dust", "Goat.C12H.claimOne_exact", "Goat.C12H.claim_exact",
                      "Goat.C12H.claim_second_pays_zero", "Goat.C12H.dequeue_spec", "Goat.C12H.processRequests_spec", "Goat.C12H.beginBlock_spec", "Goat.C12H.apply_spec",
-                     "Goat.C12H.history", "Goat.C12H.conservation", "Goat.C12H.conservation_combined", "Goat.C12H.nonnegativity", "Goat.C12H.conservation_from_genesis"],
+                     "Goat.C12H.history", "Goat.C12H.conservation", "Goat.C12H.conservation_combined", "Goat.C12H.nonnegativity", "Goat.C12H.conservation_from_genesis", "Goat.C12G.reward_total_survives_restart", "Goat.C12G.dropped_record_loses_its_rewards"],
         "streams": [{"name": "locking-rewards", "quick": 2500, "thorough": 40000, "seeds": 16},
                     {"name": "locking", "quick": 1500, "thorough": 20000, "seeds": 8},
                     {"name": "app-export", "quick": 700, "thorough": 4000, "seeds": 8}],
